@@ -85,6 +85,24 @@ CLAIMED = {
         note=CORR + "Partial: aliasing, package-level caches and data races are facts about the Go heap that an immutable functional "
              "model cannot express; they are sampled under -race.", design="5/C15",
         technique="Coq proof (state independence of the model) + race-detector differential runs"),
+    "C09": dict(
+        text="Theorems C09_every_schedule / C09_final_configuration / C09_frames (axiom-free) over the network reader -> framer -> "
+             "fan-out -> k consumers of Pipe.v under the interleaving semantics of Net.v (bounded FIFO channels, blocking send "
+             "and receive, close): for ANY framing state machine, input, number of consumers (any of them nil) and channel "
+             "capacities >= 1 there is a bound n such that every execution under every schedule has at most n steps, can always "
+             "be continued to ONE final configuration and, if it cannot be continued, is that configuration; there the reader, "
+             "framer and fan-out have halted, every channel is empty, channels were closed once, and every non-nil consumer "
+             "holds exactly the sequential output of the framer (instantiated with the model's stream handler: the message "
+             "list of handle_stream). Proof: a canonical schedule by induction over bytes, messages and consumers, lifted to "
+             "all schedules by the diamond/determinacy theorem of Net.v. Oracle: the real HandleMessagesUntilEOF under the "
+             "race detector with a scripted reader (chunkings, data returned together with EOF), 1-4 consumers of capacity "
+             "0/1/8, slow consumers, nil entries, GOMAXPROCS 1/2/4/16; each consumer's (type, raw) sequence compared with "
+             "the extracted model's sequential framing; return value, leaked goroutines, panics.",
+        note=CORR + "Partial: Go's unbuffered channels are modelled with capacity 1 (every rendezvous execution is a capacity-1 "
+             "execution in which the receive follows the send at once, so delivered sequences are covered; absence of deadlock "
+             "under pure rendezvous and data-race freedom are the race-detector oracle's verdict on sampled schedules, not "
+             "theorems). The test-only stop message is not modelled.", design="5/C09",
+        technique="Coq proof (Kahn-network determinacy: diamond + canonical schedule) + race-detector pipeline oracle"),
     "C11": dict(
         text="Theorems C11_flushed_displayrtcm3 / C11_flushed_rtcmfilter / C11_no_deadlock (axiom-free) over a two-process network "
              "(main: send every message on a bounded channel, close it, wait for the writer iff the generated fact waits_<app> "
